@@ -4,6 +4,8 @@ package modhash
 // empty, duplicate Add / missing Remove rejected without effect, crash-freedom for any weights.
 
 import (
+	"time"
+
 	"github.com/TarsCloud/TarsGo/tars/selector"
 	"github.com/TarsCloud/TarsGo/tars/util/endpoint"
 	"github.com/TarsCloud/TarsGo/tars/zzverif/vapi"
@@ -11,9 +13,20 @@ import (
 
 var c13Hosts = []string{"10.0.0.1", "10.0.0.2", "10.0.0.3"}
 
-type c13Msg struct{ code uint32 }
+type c13Msg struct {
+	code uint32
+	wait chan struct{} // native replay only: HashCode lingers until the updater is through (at most 20 ms)
+}
 
-func (m *c13Msg) HashCode() uint32            { return m.code }
+func (m *c13Msg) HashCode() uint32 {
+	if m.wait != nil && !vapi.Engine() {
+		select {
+		case <-m.wait:
+		case <-time.After(20 * time.Millisecond):
+		}
+	}
+	return m.code
+}
 func (m *c13Msg) HashType() selector.HashType { return selector.ModHash }
 func (m *c13Msg) IsHash() bool                { return true }
 
@@ -166,7 +179,8 @@ func VerifC13ModHashConcurrent() {
 	s := New(false)
 	s.Refresh([]endpoint.Endpoint{c13Ep(0), c13Ep(1)})
 	done := make(chan struct{}, 1)
-	upd := vapi.Choice("update", 3)
+	through := make(chan struct{}) // closed when the updater has finished
+	upd := vapi.Choice("update", 4)
 	go func() {
 		switch upd {
 		case 0:
@@ -175,12 +189,17 @@ func VerifC13ModHashConcurrent() {
 			_ = s.Add(c13Ep(2))
 		case 2:
 			s.Refresh([]endpoint.Endpoint{c13Ep(2)})
+		case 3: // the set is emptied while selections run
+			s.Refresh(nil)
 		}
+		close(through)
 		done <- struct{}{}
 	}()
 	for k := 0; k < 2; k++ {
-		ep, err := s.Select(&c13Msg{code: vapi.Uint32("code")})
-		vapi.Check(err == nil, "concurrent: the set is never empty here, so Select succeeds")
+		ep, err := s.Select(&c13Msg{code: vapi.Uint32("code"), wait: through})
+		if upd != 3 {
+			vapi.Check(err == nil, "concurrent: the set is never empty here, so Select succeeds")
+		}
 		if err == nil {
 			i := c13HostIndex(ep.Host)
 			switch upd {
@@ -190,11 +209,18 @@ func VerifC13ModHashConcurrent() {
 				vapi.Check(i >= 0 && i <= 2, "concurrent: member of the old or the new set")
 			case 2:
 				vapi.Check(i >= 0 && i <= 2, "concurrent: member of the old or the new set")
+			case 3: // emptied meanwhile: an error, or a member of the old set - never a crash
+				vapi.Check(i == 0 || i == 1, "concurrent: member of the old or the new set")
 			}
 		}
 	}
 	<-done
 	ep, err := s.Select(&c13Msg{code: vapi.Uint32("code")})
+	if upd == 3 {
+		vapi.Check(err != nil, "concurrent: after the set was emptied Select fails with an error")
+		vapi.Reach("c13-modhash-concurrent")
+		return
+	}
 	vapi.Check(err == nil, "concurrent: select after the update")
 	i := c13HostIndex(ep.Host)
 	switch upd {
